@@ -150,7 +150,7 @@ impl Prop for C18 {
         }
     }
     fn rule(&self) -> String {
-        "generated: create/drop histories of 1..200 stream buffers of 1-8 pages and 4 element types, created by the main thread and dropped (after optional use) by 1-8 threads in generated order; enumerated set-up table and aliasing table; concurrent churn in a child process (2-12 threads: holders keep pools of 1-8 page buffers with known content straddling the wrap and re-verify them, churners create/verify/drop buffers of up to 64 pages or of 2/4/6 MiB, and optionally every third thread keeps requesting sizes that must be refused; a crash of the child, a changed byte, broken aliasing or a leftover mapping is a violation); child-process fault campaigns (RLIMIT_AS lowered so that mmap fails after k buffers; map-count exhaustion with both parities so that the first or the second, MAP_FIXED, step fails). Oracle: after joining, the number of /proc/self/maps entries of deleted files and of /proc/self/fd entries equals the baseline taken at the start of the case; while a buffer lives its two halves are two adjacent mappings of one inode at offset 0, each `size` long, and every byte written through one half is read through the other; invalid configurations give Err from Buffer::new with no mapping left behind; injected mapping failures are Err (no panic/abort), repeated failures do not grow the mapping count, surviving and fresh streams still pass a wrap-forcing history. Non-trivial: >= 2 threads and >= 20 streams, or an injected failure occurred, or an enumerated table entry; distinct = hash of the case.".into()
+        "generated: create/drop histories of 1..200 stream buffers of 1-8 pages and 4 element types, created by the main thread and dropped (after optional use) by 1-8 threads in generated order; enumerated set-up table and aliasing table; concurrent churn in a child process (2-12 threads: holders keep pools of 1-8 page buffers with known content straddling the wrap and re-verify them, churners create/verify/drop buffers of up to 64 pages or of 2/4/6 MiB, and optionally every third thread keeps requesting sizes that must be refused; a crash of the child, a changed byte, broken aliasing or a leftover mapping is a violation); child-process fault campaigns (RLIMIT_AS lowered so that mmap fails after k buffers; map-count exhaustion with both parities so that the first or the second, MAP_FIXED, step fails). Oracle: after joining, the number of /proc/self/maps entries of deleted files and of /proc/self/fd entries equals the baseline taken at the start of the case; while a buffer lives its two halves are two adjacent mappings of one inode at offset 0, each `size` long, and every byte written through one half is read through the other; invalid configurations give Err from Buffer::new with no mapping left behind; injected mapping failures are Err (no panic/abort), repeated failures do not grow the mapping count, every buffer handed out under memory pressure has its advertised capacity and a full window that reads back intact, surviving and fresh streams still pass a wrap-forcing history. Non-trivial: >= 2 threads and >= 20 streams, or an injected failure occurred, or an enumerated table entry; distinct = hash of the case.".into()
     }
     fn assumptions(&self) -> Vec<String> {
         vec![
@@ -161,9 +161,9 @@ impl Prop for C18 {
     }
     fn extra(&self, tier: Tier, seed: u64, ev: &mut Extra) {
         // RLIMIT_AS campaign
-        let headrooms: Vec<u64> = if tier == Tier::Quick { vec![64, 300, 1000, 5000] } else { (0..40).map(|i| 16 + i * 211 + (seed % 97)).collect() };
+        let headrooms: Vec<u64> = if tier == Tier::Quick { vec![64, 100, 300, 1000, 1500, 5000, 12000] } else { (0..40).map(|i| 16 + i * 211 + (seed % 97)).collect() };
         for h in headrooms {
-            for size in [4096usize, 65536] {
+            for size in [4096usize, 65536, 1 << 20, 8 << 20] {
                 let args = vec!["child".to_string(), "rlimit".into(), h.to_string(), size.to_string(), "2000".into()];
                 let (code, out) = run_child(&args, 60);
                 ev.evaluations += 1;
@@ -174,6 +174,7 @@ impl Prop for C18 {
                         let injected = v["errs"].as_u64().unwrap_or(0) > 0;
                         let ok = v["growth_after_fail"].as_i64() == Some(0)
                             && v["maps_ok"].as_bool() == Some(true)
+                            && v["data_ok"].as_bool() == Some(true)
                             && v["after_drop"] == v["base"]
                             && v["hist_ok"].as_bool() == Some(true);
                         if injected {
